@@ -126,8 +126,21 @@ def do_run(sel=""):
     json.dump(table, open(os.path.join(VERIF, "seeded", "results.json"), "w"), indent=1)
 
 
+def do_reconfirm():
+    sdir = os.path.join(VERIF, "seeded")
+    for name in sorted(os.listdir(sdir)):
+        d = os.path.join(sdir, name)
+        if not os.path.isdir(d):
+            continue
+        ok, why, ran = confirm(d)
+        print("%-10s %s" % (name, "still confirmed on the current tree" if ok else "NOT CONFIRMED: " + why[:300]))
+        sys.stdout.flush()
+
+
 if __name__ == "__main__":
-    if len(sys.argv) >= 3 and sys.argv[1] == "import":
+    if len(sys.argv) >= 2 and sys.argv[1] == "reconfirm":
+        do_reconfirm()
+    elif len(sys.argv) >= 3 and sys.argv[1] == "import":
         do_import(sys.argv[2])
     elif len(sys.argv) >= 2 and sys.argv[1] == "run":
         do_run(sys.argv[2] if len(sys.argv) > 2 else "")
